@@ -207,6 +207,10 @@ OtDevOK(e) ==
 \*  - whatever an aggregator returns is one common signature accepted by the library verifier and the independent one;
 \*  - the alteration is caught before a result is accepted: an honest party rejects, or every aggregator refuses.
 HonestRejects(e) == {i \in 1..Len(e.rejects) : e.rejects[i].party # e.dev}
+\* Leaves whose alteration does not change any decoded value (binding table, as ProtoCore.FreeLeaf): the encoding of a Paillier
+\* ciphertext of unknown order carries a copy of the arithmetic (the modulus N^2) next to N; znstar's decoder rebuilds the group
+\* from N and ignores the copy, so Lindell17's c3 with that copy altered IS the same ciphertext and the run must succeed.
+FreeLeaves == {"/c3/c/arithmetic/modulus/modulus/natBytes"}
 SignDevOK(e) ==
   /\ e.applied /\ e.changed
   /\ e.dev \in QuorumOf(e) /\ Authorised(e)
@@ -214,9 +218,11 @@ SignDevOK(e) ==
   /\ \A i \in HonestRejects(e) : \A j \in 1..Len(e.rejects[i].blamed) : e.rejects[i].blamed[j] = e.dev
   /\ Len(e.outs) > 0 => /\ \A i, j \in 1..Len(e.outs) : e.outs[i].tok = e.outs[j].tok
                         /\ e.signed /\ e.verify_lib /\ e.verify_indep /\ ~e.verify_other_lib
-  /\ \/ HonestRejects(e) # {}
-     \/ (Len(e.outs) = 0 /\ Len(e.outErrs) > 0)                                \* the aggregators refuse
-     \/ (Len(e.rejects) > 0 /\ Len(e.outs) = 0)                                \* the run stopped without a result
+  /\ IF e.leaf \in FreeLeaves
+     THEN Len(e.rejects) = 0 /\ Len(e.outErrs) = 0 /\ Len(e.outs) > 0           \* same decoded message: an honest run
+     ELSE \/ HonestRejects(e) # {}
+          \/ (Len(e.outs) = 0 /\ Len(e.outErrs) > 0)                           \* the aggregators refuse
+          \/ (Len(e.rejects) > 0 /\ Len(e.outs) = 0)                           \* the run stopped without a result
 
 \* ----------------------------------------------------------------
 Check(e) ==
